@@ -154,6 +154,8 @@ type Net struct {
 
 	// Tap observes every message right before delivery, at a quiescent point.
 	Tap func(m *TapMsg)
+	// TapSent observes every message at the first quiescent point after it was sent.
+	TapSent func(m *TapMsg)
 	// Quiesce observers: called by the dispatcher after each delivered event.
 	AfterEvent func()
 
@@ -174,6 +176,8 @@ type TapMsg struct {
 	ToServer bool
 	StreamID string
 	Dropped bool
+	CallID  string // unary: id of the request message (same on request and response)
+	Sent    bool   // true when reported by TapSent (first quiescent point after the send)
 }
 
 func NewNet(r *Run, cfg NetConfig) *Net {
@@ -352,6 +356,9 @@ func (n *Net) harvest() {
 				key := m.id
 				ord := n.nextOrdinal(key)
 				m.id = fmt.Sprintf("%s#%d", key, ord)
+				if m.kind == mUnaryReq && m.call != nil && m.call.id == "" {
+					m.call.id = m.id
+				}
 			}
 			if m.stream != nil && (m.kind == mStreamData || m.kind == mStreamHalf || m.kind == mStreamStatus || m.kind == mStreamOpen) {
 				// FIFO per stream direction
@@ -375,6 +382,23 @@ func (n *Net) harvest() {
 			}
 		}
 		heap.Push(&n.q, m)
+		if n.TapSent != nil && m.kind != mTimer && m.kind != mCancel && !(m.src != nil && m.src.Dead()) {
+			var dst *Endpoint
+			switch {
+			case m.dst != nil:
+				dst = m.dst
+			case m.stream != nil && m.toServer:
+				dst = m.stream.server
+			case m.stream != nil:
+				dst = m.stream.client
+			}
+			if dst == nil && m.daddr != "" {
+				dst = n.byAddrLocked(m.daddr)
+			}
+			t := n.mkTap(m, dst, false)
+			t.Sent = true
+			n.TapSent(t)
+		}
 	}
 }
 
@@ -451,6 +475,10 @@ func (n *Net) tap(m *message, dst *Endpoint, dropped bool) {
 	if n.Tap == nil || m.kind == mTimer {
 		return
 	}
+	n.Tap(n.mkTap(m, dst, dropped))
+}
+
+func (n *Net) mkTap(m *message, dst *Endpoint, dropped bool) *TapMsg {
 	t := &TapMsg{Kind: m.kind.String(), Src: epName(m.src), Method: m.method, Payload: m.payload, MD: m.md, Status: m.st,
 		ToServer: m.toServer, StreamID: m.streamID(), Dropped: dropped}
 	if m.src != nil {
@@ -464,7 +492,13 @@ func (n *Net) tap(m *message, dst *Endpoint, dropped bool) {
 	if m.stream != nil && m.method == "" {
 		t.Method = m.stream.method
 	}
-	n.Tap(t)
+	if m.call != nil {
+		t.CallID = m.call.id
+		if t.CallID == "" {
+			t.CallID = m.id
+		}
+	}
+	return t
 }
 
 func (n *Net) deliver(m *message) {
